@@ -1557,4 +1557,12 @@ mod tests {
 #[allow(unused_imports, missing_docs, dead_code, unreachable_pub)]
 pub mod verif {
     use super::*;
+
+    pub fn calculate_range_to_fetch(
+        subjective_head_height: u64,
+        synced_headers: &[BlockRange],
+        limit: u64,
+    ) -> BlockRange {
+        super::calculate_range_to_fetch(subjective_head_height, synced_headers, limit)
+    }
 }
